@@ -278,17 +278,44 @@ def tr_serialise(fn: ast.FunctionDef, inner: ast.FunctionDef):
     if _file != file_param:
         raise _err(call, 'the file parameter is not what _serialise writes to')
     bufs = [n for n in ast.walk(fn) if isinstance(n, ast.Assign) and isinstance(n.value, ast.Call)
-            and isinstance(n.value.func, ast.Attribute) and n.value.func.attr == 'StringIO' and not n.value.args]
-    if len(bufs) != 1 or len(bufs[0].targets) != 2 or not all(isinstance(t, ast.Name) for t in bufs[0].targets) \
-            or file_param not in [t.id for t in bufs[0].targets]:
-        raise _err(fn, '`file = buffer = io.StringIO()` not recognised')
-    buf_name = next(t.id for t in bufs[0].targets if t.id != file_param)
+            and isinstance(n.value.func, ast.Attribute) and n.value.func.attr == 'StringIO' and not n.value.args
+            and not n.value.keywords]
+    if len(bufs) != 1 or not 1 <= len(bufs[0].targets) <= 2 or not all(isinstance(t, ast.Name) for t in bufs[0].targets):
+        raise _err(fn, 'creation of the io.StringIO() buffer not recognised')
     guard = [n for n in ast.walk(fn) if isinstance(n, ast.If) and bufs[0] in n.body]
     if len(guard) != 1 or ast.dump(guard[0].test) != ast.dump(ast.parse(f'{file_param} is None', mode='eval').body):
         raise _err(fn, 'the StringIO buffer is not created exactly when file is None')
+    tnames = [t.id for t in bufs[0].targets]
+    if file_param in tnames and len(tnames) == 2:
+        buf_name = next(t for t in tnames if t != file_param)           # file = buffer = io.StringIO()
+    elif file_param not in tnames and len(tnames) == 1:
+        buf_name = tnames[0]                                            # buffer = io.StringIO(); file = buffer
+        after = guard[0].body[guard[0].body.index(bufs[0]) + 1:]
+        if not any(isinstance(x, ast.Assign) and len(x.targets) == 1 and _is_name(x.targets[0], file_param)
+                   and _is_name(x.value, buf_name) for x in after):
+            raise _err(fn, 'the StringIO buffer is not what file is set to')
+    else:
+        raise _err(fn, 'creation of the io.StringIO() buffer not recognised')
+    for n in ast.walk(fn):
+        if isinstance(n, ast.Assign) and n is not bufs[0] and any(_is_name(t, buf_name) for t in n.targets) \
+                and not (isinstance(n.value, ast.Constant) and n.value.value is None) and n.lineno > bufs[0].lineno:
+            raise _err(n, 'the buffer variable is rebound')
     rets = [n for n in ast.walk(fn) if isinstance(n, ast.Return) and n.value is not None
             and not (isinstance(n.value, ast.Constant) and n.value.value is None)]
-    if len(rets) != 1 or ast.dump(rets[0].value) != ast.dump(ast.parse(f'{buf_name}.getvalue()', mode='eval').body):
+    getval = ast.dump(ast.parse(f'{buf_name}.getvalue()', mode='eval').body)
+
+    def returns_text(v) -> bool:
+        if ast.dump(v) == getval:
+            return True
+        if isinstance(v, ast.IfExp):      # buffer.getvalue() if buffer is not None else None   (or the other way round)
+            none = lambda x: isinstance(x, ast.Constant) and x.value is None          # noqa: E731
+            t_ = ast.dump(v.test)
+            if t_ == ast.dump(ast.parse(f'{buf_name} is not None', mode='eval').body):
+                return ast.dump(v.body) == getval and none(v.orelse)
+            if t_ == ast.dump(ast.parse(f'{buf_name} is None', mode='eval').body):
+                return ast.dump(v.orelse) == getval and none(v.body)
+        return False
+    if len(rets) != 1 or not returns_text(rets[0].value):
         raise _err(fn, 'serialise() does not return buffer.getvalue()')
     if rets[0].lineno < call.lineno:
         raise _err(fn, 'serialise() returns before writing')
@@ -452,10 +479,38 @@ def tr_export_struct(fn: ast.FunctionDef) -> dict:
         return isinstance(c, ast.Call) and isinstance(c.func, ast.Attribute) and c.func.attr == fn.name \
             and _is_name(c.func.value, var) and not c.args and not c.keywords
 
+    def child_prefix(e, line_var, at):
+        """CONSTANT + line  /  f'CONSTANT{line}'  -> the constant as pieces"""
+        if isinstance(e, ast.BinOp) and isinstance(e.op, ast.Add) and _is_name(e.right, line_var) \
+                and isinstance(e.left, ast.Constant) and isinstance(e.left.value, str):
+            c = e.left.value
+        elif isinstance(e, ast.JoinedStr) and len(e.values) == 2 and isinstance(e.values[0], ast.Constant) \
+                and isinstance(e.values[0].value, str) and isinstance(e.values[1], ast.FormattedValue) \
+                and _is_name(e.values[1].value, line_var) and e.values[1].conversion == -1 and e.values[1].format_spec is None:
+            c = e.values[0].value
+        elif _is_name(e, line_var):
+            c = ''
+        else:
+            raise _err(at, 'child lines are not CONSTANT + line')
+        return [('Lit', c)] if c else []
+
     def yields(stmts, allow_children):
         pre, post, prefix = [], [], None
         for st in stmts:
             if isinstance(st, ast.Assert):
+                continue
+            if isinstance(st, ast.For) and allow_children:
+                # for kv in self._value: for line in kv.export(): yield PREFIX + line     (= the generator expression)
+                if prefix is not None:
+                    raise _err(st, 'two child generators in export()')
+                inner_ = st.body[0] if len(st.body) == 1 else None
+                if not (isinstance(st.target, ast.Name) and is_self_attr(st.iter, '_value') and not st.orelse
+                        and isinstance(inner_, ast.For) and isinstance(inner_.target, ast.Name) and not inner_.orelse
+                        and is_export_call(inner_.iter, st.target.id) and len(inner_.body) == 1
+                        and isinstance(inner_.body[0], ast.Expr) and isinstance(inner_.body[0].value, ast.Yield)
+                        and inner_.body[0].value.value is not None):
+                    raise _err(st, 'children are not yielded as `for kv in self._value: for line in kv.export(): yield PREFIX + line`')
+                prefix = child_prefix(inner_.body[0].value.value, inner_.target.id, st)
                 continue
             if not isinstance(st, ast.Expr):
                 raise _err(st, f'unrecognised statement in export(): {type(st).__name__}')
@@ -476,11 +531,7 @@ def tr_export_struct(fn: ast.FunctionDef) -> dict:
                 if not (isinstance(g1.target, ast.Name) and is_self_attr(g1.iter, '_value')
                         and isinstance(g2.target, ast.Name) and is_export_call(g2.iter, g1.target.id)):
                     raise _err(st, 'child generator does not iterate kv.export() for kv in self._value')
-                e = g.elt
-                if not (isinstance(e, ast.BinOp) and isinstance(e.op, ast.Add) and _is_name(e.right, g2.target.id)
-                        and isinstance(e.left, ast.Constant) and isinstance(e.left.value, str)):
-                    raise _err(st, 'child lines are not CONSTANT + line')
-                prefix = [('Lit', e.left.value)] if e.left.value else []
+                prefix = child_prefix(g.elt, g2.target.id, st)
                 continue
             raise _err(st, 'unrecognised expression statement in export()')
         return pre, prefix, post
@@ -530,8 +581,15 @@ def tr_export(fn: ast.FunctionDef):
     self_name = fn.args.args[0].arg
     fs = FStr(self_name, {})
     ys = []
+    # `yield PREFIX + line` inside `for line in kv.export()`: a child's line handed on, described by export_struct
+    handed_on = set()
     for n in ast.walk(fn):
-        if isinstance(n, ast.Yield) and n.value is not None:
+        if isinstance(n, ast.For) and isinstance(n.target, ast.Name) and isinstance(n.iter, ast.Call) \
+                and isinstance(n.iter.func, ast.Attribute) and n.iter.func.attr == fn.name and len(n.body) == 1 \
+                and isinstance(n.body[0], ast.Expr) and isinstance(n.body[0].value, ast.Yield):
+            handed_on.add(id(n.body[0].value))
+    for n in ast.walk(fn):
+        if isinstance(n, ast.Yield) and n.value is not None and id(n) not in handed_on:
             if isinstance(n.value, (ast.JoinedStr, ast.Constant)):
                 ys.append((n.lineno, fs.pieces(n.value)))
             else:
